@@ -561,60 +561,6 @@ func runC07(w *World, r *Report) {
 			})
 		}
 	}
-	// the stream checker has no way round it: whatever defaultStreamConverter returns is a convert reader built in this
-	// call with the checking converter (never the incoming reader itself, never another helper's unchecked view of it)
-	{
-		f := w.Fn("compose", "defaultStreamConverter")
-		swc := w.Fn("schema", "StreamReaderWithConvert")
-		var checked func(v ssa.Value, d int) bool
-		checked = func(v ssa.Value, d int) bool {
-			if d > 8 {
-				return false
-			}
-			switch x := v.(type) {
-			case *ssa.Call:
-				if sc := staticCallee(x); sc != nil && origin(sc) == swc {
-					// the converter is a literal of this function that asserts comma-ok (checked above)
-					if len(x.Call.Args) == 2 {
-						switch l := x.Call.Args[1].(type) {
-						case *ssa.MakeClosure:
-							return l.Fn.(*ssa.Function).Parent() == f
-						case *ssa.Function:
-							return l.Parent() == f
-						}
-					}
-					return false
-				}
-				if sc := staticCallee(x); sc != nil && sc.Name() == "packStreamReader" && len(x.Call.Args) == 1 {
-					return checked(x.Call.Args[0], d+1)
-				}
-			case *ssa.Phi:
-				for _, e := range x.Edges {
-					if !checked(e, d+1) {
-						return false
-					}
-				}
-				return len(x.Edges) > 0
-			case *ssa.MakeInterface:
-				return checked(x.X, d+1)
-			case *ssa.ChangeInterface:
-				return checked(x.X, d+1)
-			}
-			return false
-		}
-		n := 0
-		instrs(f, func(in ssa.Instruction) {
-			ret, ok := in.(*ssa.Return)
-			if !ok || len(ret.Results) != 1 {
-				return
-			}
-			n++
-			r.Check(checked(ret.Results[0], 0), "C07.converter-is-checker", fmt.Sprintf("defaultStreamConverter: return #%d is the checking convert reader", n), ret.Pos(), "packStreamReader(StreamReaderWithConvert(…, checking literal))", "a reader can leave the stream checker without the checking converter in front of it (fast path): for an interface-typed consumer every reader 'already is' a stream of T, so an unassignable item is no longer reported as 'runtime type check fail' but panics in the consumer (out of Stream for a branch condition)")
-		})
-		if n == 0 {
-			r.Fail("C07.converter-is-checker", "defaultStreamConverter: returns", f.Pos(), "no single-value return found")
-		}
-	}
 	// pass-through nodes: a state handler on a node whose own type is only inferred later must be typed `any` exactly
 	// (the handler is never re-checked against the inferred type)
 	{
